@@ -36,6 +36,19 @@ def gen_script(rng, fens, games):
             sc.append(rng.choice([("uci", ">uci", "none"), ("isready", ">isready", "none")]))
         sc.append(("stop", ">stop", "none")); sc.append(("quit", ">quit", "none"))
         return sc
+    if rng.random() < 0.15:
+        # option-combination family: several options at boundary values, then a short search that must still answer
+        sc = [("uci", ">uci", "sync")]
+        for k in rng.sample(list(OPTIONS), rng.randrange(2, 5)):
+            spec = OPTIONS[k]
+            v = rng.choice(["true", "false"]) if spec == "bool" else rng.choice([spec[0], spec[0] + 1, min(spec[1], 8 if k == "Threads" else 64 if k == "Hash" else spec[1])])
+            if k == "MaxNPS" and v == 1: v = 5000     # MaxNPS 1 turns a 40 ms search into minutes: known finding C06-maxnps-sleep, not re-reported here
+            sc.append((f"setoption name {k} value {v}", ">other", "none"))
+        if rng.random() < 0.7: sc.append((f"setoption name MultiPV value {rng.choice([2, 3, 6])}", ">other", "none"))
+        if rng.random() < 0.7: sc.append((f"setoption name Strength value {rng.choice([0, 1, 100, 199])}", ">other", "none"))
+        sc += [("isready", ">isready", "sync"), (f"position fen {rng.choice(fens)}", ">other", "none"),
+               (f"go movetime {rng.choice([10, 40])}", ">go", "best"), ("go nodes 200", ">go", "best"), ("quit", ">quit", "none")]
+        return sc
     n = rng.randrange(3, 60)
     sc = []
     early = rng.random() < 0.35      # commands before any initialisation
@@ -54,6 +67,7 @@ def gen_script(rng, fens, games):
                 v = rng.choice([lo, hi, rng.randrange(lo, hi + 1), lo - 1, hi + 1, "abc"])
                 if k == "Threads" and isinstance(v, int) and v > 8: v = 8
                 if k == "Hash" and isinstance(v, int) and v > 64: v = 64
+            if k == "MaxNPS" and isinstance(v, int) and 0 < v < 1000: v = 1000   # tiny MaxNPS: known finding C06-maxnps-sleep
             if k in ("MaxNPS", "Strength", "UCI_LimitStrength"): throttled = True
             sc.append((f"setoption name {k} value {v}", ">other", "none"))
         elif x < 0.33: sc.append(("setoption name Clear Hash", ">other", "none"))
